@@ -33,6 +33,9 @@ Read from /repo on every run and written to lean/YashModel/Generated/AliasTables
                                                           `take_token_auto` passes to `substitute_alias`; shapes checked:
                                                           a reserved word among `keywords` is returned before the call,
                                                           `take_token_manual` passes its own parameter
+  yash-syntax/src/parser/*.rs                          -> takeFlows          per function that takes a token itself: the
+                                                          ORDER and nesting of its take_token_raw/auto/manual calls and of
+                                                          its calls of other token-taking parser functions (`_canon`)
 
 `lean/YashModel/Alias/TableLemmas.lean` states (kernel-checked on every run) that the hand-written definitions
 of `Alias/Model.lean` (`operators`, `isOpChar`, `keywords`, `isRedirOp`, `isHereOp`, `isBlank`, `endsBlank`, the
@@ -417,6 +420,175 @@ def _take_token_shapes(h, core):
     return sm.group(5)
 
 
+KEYWORDS_CF = ("match", "loop", "while", "for", "if", "else")
+
+
+def _arm_split(h, mb, what):
+    """[(pattern text, body text)] of the arms inside a match block"""
+    arms, i, n = [], 0, len(mb)
+    while i < n:
+        while i < n and mb[i] in " \t\r\n,":
+            i += 1
+        if i >= n:
+            break
+        # find the `=>` of this arm at bracket depth 0
+        depth, j = 0, i
+        while j < n:
+            c = mb[j]
+            if c in "([{":
+                depth += 1
+            elif c in ")]}":
+                depth -= 1
+            elif c == "'" and re.match(CHAR_RE, mb[j:]):
+                j += re.match(CHAR_RE, mb[j:]).end() - 1
+            elif c == '"':
+                j += 1
+                while mb[j] != '"':
+                    j += 2 if mb[j] == "\\" else 1
+            elif depth == 0 and mb.startswith("=>", j):
+                break
+            j += 1
+        if j >= n:
+            h.fail(f"{what}: match arm without `=>`: {mb[i:i + 40]!r}")
+        pat = mb[i:j]
+        k = j + 2
+        while k < n and mb[k] in " \t\r\n":
+            k += 1
+        if k < n and mb[k] == "{":
+            body, e = _block(h, mb, k, what)
+            i = e
+        else:
+            depth, e = 0, k
+            while e < n:
+                c = mb[e]
+                if c in "([{":
+                    depth += 1
+                elif c in ")]}":
+                    depth -= 1
+                elif c == "'" and re.match(CHAR_RE, mb[e:]):
+                    e += re.match(CHAR_RE, mb[e:]).end() - 1
+                elif c == '"':
+                    e += 1
+                    while mb[e] != '"':
+                        e += 2 if mb[e] == "\\" else 1
+                elif c == "," and depth == 0:
+                    break
+                e += 1
+            body = mb[k:e]
+            i = e
+        arms.append((pat, body))
+    return arms
+
+
+def _canon(h, text, takers, kw_text, what):
+    """canonical form of the token-taking structure of a piece of Rust code: `r` raw, `a[kws]` auto, `m(flag)` manual,
+    `@` a call of another token-taking parser function; `*( )` loop body, `?( )` conditional block, `{x|y}` match arms
+    (sorted), `( )` any other block"""
+    out, i, n, last_kw = [], 0, len(text), None
+    tok = re.compile(r"[A-Za-z_]\w*")
+    while i < n:
+        c = text[i]
+        if c == '"':
+            i += 1
+            while text[i] != '"':
+                i += 2 if text[i] == "\\" else 1
+            i += 1
+            continue
+        if c == "'" and re.match(CHAR_RE, text[i:]):
+            i += re.match(CHAR_RE, text[i:]).end()
+            continue
+        if c == ";":
+            last_kw = None
+            i += 1
+            continue
+        if c == "{":
+            inner, e = _block(h, text, i, what)
+            if last_kw == "match":
+                arms = []
+                for pat, body in _arm_split(h, inner, what):
+                    g = _canon(h, pat, takers, kw_text, what) + _canon(h, body, takers, kw_text, what)
+                    arms.append(g)
+                arms = sorted(set(arms))
+                if any(arms):
+                    out.append("{" + "|".join(a if a else "-" for a in arms) + "}")
+            else:
+                g = _canon(h, inner, takers, kw_text, what)
+                if g:
+                    pre = {"loop": "*", "while": "*", "for": "*", "if": "?", "else": "?"}.get(last_kw, "")
+                    out.append(pre + "(" + g + ")")
+            last_kw = None
+            i = e
+            continue
+        m = tok.match(text, i)
+        if m:
+            w = m.group(0)
+            j = m.end()
+            if w in KEYWORDS_CF:
+                # `else if` keeps `if`; `match` inside a `while`/`if` condition: the block that follows belongs to the match
+                last_kw = w
+            elif w in ("take_token_raw", "take_token_auto", "take_token_manual") and text[j:j + 1] == "(":
+                args, e = _block(h, text, j, what)
+                if w == "take_token_raw":
+                    out.append("r")
+                elif w == "take_token_auto":
+                    kws = sorted(kw_text.get(_variant(h, x, what), "?" + x) for x in
+                                 _split_top(re.sub(r"^&?\[|\]$", "", re.sub(r"\s+", "", args)))) if "[" in args else ["?" + args]
+                    out.append("a[" + ",".join(kws) + "]")
+                else:
+                    a = re.sub(r"\s+", "", args)
+                    a = "words.is_empty()" if re.fullmatch(r"\w+\.words\.(is_empty\(\)|len\(\)==0)", a) else a
+                    out.append("m(" + a + ")")
+                i = e
+                continue
+            elif w in takers and text[j:j + 1] == "(" and re.search(r"(self\s*\.\s*|Self\s*::\s*)$", text[max(0, i - 80):i]):
+                out.append("@")
+            i = j
+            continue
+        i += 1
+    return "".join(out)
+
+
+def _take_flows(h, kw_text):
+    """canonical token-taking structure of every parser function that takes a token itself (not core.rs, not tests)"""
+    import os
+    rel = "yash-syntax/src/parser"
+    d = os.path.join(h.REPO, rel)
+    bodies = {}
+    for f in sorted(os.listdir(d)):
+        if not f.endswith(".rs") or f == "core.rs":
+            continue
+        src = _strip(h.read(f"{rel}/{f}"))
+        if f == "from_str.rs":
+            # `impl FromStr for …`: conveniences that run a parser WITHOUT an alias glossary; not part of the automaton
+            if re.search(r"\baliases\s*\(", src):
+                h.fail(f"{rel}/{f}: a FromStr convenience sets an alias glossary")
+            continue
+        spans = _fn_spans(h, src, f"{rel}/{f}")
+        for name, b, e in spans:
+            # innermost functions are part of their parent's text; keep top-level items only
+            if any(b2 < b and e < e2 for _, b2, e2 in spans):
+                continue
+            text = src[b + 1:e - 1]
+            if name in bodies:
+                if re.search(r"\btake_token_(raw|auto|manual)\s*\(", text + bodies[name]):
+                    h.fail(f"{rel}: two functions are called {name} and one of them takes tokens")
+                text = bodies[name] + "\n" + text
+            bodies[name] = text
+    direct = {n for n, t in bodies.items() if re.search(r"\btake_token_(raw|auto|manual)\s*\(", t)}
+    takers = set(direct)
+    changed = True
+    while changed:
+        changed = False
+        for n, t in bodies.items():
+            if n not in takers and any(re.search(r"(self\s*\.\s*|Self\s*::\s*)" + k + r"\s*\(", t) for k in takers):
+                takers.add(n)
+                changed = True
+    flows = []
+    for n in sorted(direct):
+        flows.append((n, _canon(h, bodies[n], takers, kw_text, f"{rel}: fn {n}")))
+    return flows
+
+
 def alias_tables(h):
     def load(rel):
         return _strip(h.read(rel))
@@ -591,6 +763,7 @@ def alias_tables(h):
 
     # --- which take_token_* the parser functions use (the position automaton `trans` of the model)
     takes = _subst_takes(h, kw_text)
+    flows = _take_flows(h, kw_text)
     auto_flag = _take_token_shapes(h, _strip(h.read("yash-syntax/src/parser/core.rs")))
 
     def lstr(x):
@@ -647,6 +820,14 @@ def alias_tables(h):
         "    tests: (file, function, \"auto\", reserved words passed) or (file, function, \"manual\", [flag]) -/\n"
         "def substTakes : List (String × String × String × List String) := [\n  "
         + ",\n  ".join(f"({lstr(f)}, {lstr(fn)}, {lstr(k)}, {strs(a)})" for f, fn, k, a in takes) + "]\n\n"
+        "/-- token-taking structure of every parser function that takes a token itself (yash-syntax/src/parser/*.rs, not\n"
+        "    core.rs / from_str.rs / tests), in canonical form and sorted: `r` take_token_raw, `a[kws]` take_token_auto,\n"
+        "    `m(flag)` take_token_manual, `@` call of another token-taking parser function, in SOURCE ORDER; `*( )` body of a\n"
+        "    loop, `?( )` conditional block, `{x|y}` the arms of a match (sorted, `-` = an arm that takes nothing) -/\n"
+        f"def takeFlows : List String := {strs(sorted(c for _, c in flows))}\n\n"
+        "/-- the same with the function names (information only; the theorems do not look at the names) -/\n"
+        "def takeFlowFns : List (String × String) := [\n  "
+        + ",\n  ".join(f"({lstr(n)}, {lstr(c)})" for n, c in flows) + "]\n\n"
         "/-- `take_token_auto` calls `substitute_alias(token, <this>)`; `take_token_manual(f)` calls it with `f` -/\n"
         f"def autoCommandFlag : Bool := {auto_flag}\n"
     )
